@@ -79,7 +79,7 @@ PROFILES = {
     "C14": {"invalid": 0.3, "reupload": 16, "put": 40, "grammar": 0.65, "ctparams": 0.6, "otherfiles": 0.15},
     "C15": {"proppatch": 45, "restart": 8, "mk": 6, "delcoll": 3, "put": 12, "propheavy": True, "propsingle": 0.4},
     "C16": {"mk": 8, "delcoll": 5, "post": 10},
-    "C17": {"multiget": 22, "delete": 12, "external": 0.15},
+    "C17": {"multiget": 22, "delete": 12, "external": 0.15, "otherfiles": 0.15},
 }
 
 
@@ -246,6 +246,13 @@ def run_random_session(seed, prof, frontend="wsgi", prefix="/", backend="tree", 
                     # calendar / card (and may come back later under an .ics / .vcf name)
                     n = rng.choice(OTHER_NAMES)
                     data = rng.choice(INVALID_ICS[1:] + INVALID_VCF[1:] + [b"plain text \xe2\x98\x83\n" * rng.choice([1, 400, 3000])])
+                    twins = [m for m in sorted(live) if m.lower().endswith((".ics", ".vcf"))]
+                    if twins and rng.random() < 0.35:
+                        # a byte-for-byte copy of what the server serves for one of the calendar
+                        # objects / cards, kept as an opaque file (a backup copy): same bytes, other kind
+                        g0 = s.world.request("GET", s.slots[c] + "/" + rng.choice(twins))
+                        if g0.status == 200:
+                            data = g0.body
                     valid = True
                     stored_opaque.setdefault(c, []).append(data)
                 elif rng.random() < prof["invalid"]:
